@@ -1073,7 +1073,11 @@ def gen_stock_history(rng, n):
             ops.append("caret %d" % rng.choice([0, 1, 2, 3, 5, 99]))
         elif r < 0.94:
             ops += ["key 96 0"] + ["key %d 0" % ord(ch) for ch in rng.choice(["a", "ab", "dd", "e"])]     # ` = reverse lookup prefix
-        elif r < 0.97:
+        elif r < 0.955:
+            # input the recognizer tags `pinyin` / `cangjie` (the prefixes are upper case: set through the API): the second script
+            # translator with the reverse lookup filter's comments, the table translator on the second dictionary
+            ops.append("input %s" % hx(rng.choice(["P:ni", "P:hao;", "P:nihao", "P:zhongguo", "P:a", "C:a", "C:ab;", "C:dd", "P:", "C:;"])))
+        elif r < 0.975:
             ops.append(rng.choice(["commit", "clear"]))
         else:
             ops.append("read_commit")
